@@ -42,6 +42,13 @@ Proof.
   destruct tr as [tr|]; destruct fr as [fr|]; ap_step; repeat ap_oracle; reflexivity.
 Qed.
 
+Theorem unpack_before_fix_prog_correct : unpack_before_fix_prog_stmt.
+Proof.
+  unfold unpack_before_fix_prog_stmt; intros.
+  destruct a as [[u v]|]; [|destruct tr; vm_compute; reflexivity].
+  destruct tr as [tr|]; destruct fr as [fr|]; ap_step; repeat ap_oracle; reflexivity.
+Qed.
+
 (* the returned message alone *)
 Corollary unpack_prog_result : forall (msg desc opts : Type) (dname : desc -> str) (descr_of : msg -> desc)
     (marshal : opts -> msg -> outcome (list byte)) (unmarshal : bool -> desc -> list byte -> outcome msg) (default_opts : opts)
@@ -301,5 +308,6 @@ Print Assumptions marshal_from_prog_correct.
 Print Assumptions new_prog_correct.
 Print Assumptions unpack_prog_correct.
 Print Assumptions unpack_prog_result.
+Print Assumptions unpack_before_fix_prog_correct.
 Print Assumptions marshal_from_prog_fail_untouched.
 Print Assumptions apfun_eqb_sound.
